@@ -35,3 +35,8 @@ PROP = dict(
                  "for the preliminary order)",
                  "component cycles are outside the model (resolve returns None); see C15"],
 )
+
+MANIFEST = dict(
+    text='Coq model of the preliminary glyph order (UFO: declared-and-existing first, then sorted leftovers; Glyphs: file order), GlyphOrderWork (prune, flatten non-export components by depth, drop non-export, resolve inconsistencies with derived glyph names, .notdef to gid 0), cmap construction with the conflict rule, post names, and the rule that creates backend jobs. Theorems for every declared order, name set and flag combination: exact final order (.notdef, declared, undeclared sorted, derived), no duplicates, membership exactly exported+derived+.notdef, HashSet-order independence, derived names fresh (the unbounded naming loop terminates), non-export glyphs absent from glyph set and from every component list, cmap maps c to g iff g is exported and carries c with conflicts an error, post names one-to-one; machine-checked refutations of build totality for the two known-finding classes with the outside-known theorem. Tied to the code on every run by compiling generated UFO/designspace/Glyphs sources and comparing order, post, cmap and component lists of the decoded font with the model.',
+    note='Trusted: Coq kernel + vm_compute; hand-written model (glyph = name, export flag, code points, has-contours, component names) and its correspondence run; read-fonts as independent reader; Rust harness. No axioms. Layout tables (GSUB/GPOS/GDEF) referencing non-export glyphs are only exercised for kerning.',
+)
